@@ -344,6 +344,7 @@ fn run_case(stream: &str, f: &[&str]) -> String {
         "xbrace" => pass("-", f[0], |_sh, t| vh::expand_brace(t)),
         "xrange" => pass("-", f[0], |_sh, t| vh::expand_brace_range(t)),
         "xall" => pass(f[0], f[1], |sh, t| vh::do_expansion(sh, t)),
+        "xglob" => pass(f[0], f[1], |_sh, t| vh::expand_glob(t)),
         "subst" => pass(f[0], f[1], |sh, t| vh::do_command_substitution(sh, t)),
         "envin" => (if vh::env_in_token(&unhex(f[0])) { "1" } else { "0" }).to_string(),
         "needbrace" => (if vh::need_expand_brace(&unhex(f[0])) { "1" } else { "0" }).to_string(),
